@@ -1,3 +1,4 @@
+use crate::history::{self, Prefix};
 use crate::interfere;
 use crate::seq;
 use crate::soft::{self, Info, X};
@@ -894,6 +895,17 @@ fn under_interference(case: &Recorded, crowd: Option<&interfere::Crowd>, alone_v
 /// Plain re-execution of one recorded case.
 fn confirm(v: &Value) -> Result<(), String> {
     let case = Recorded::from_json(v)?;
+    if !v["history"].is_null() {
+        // the recorded history first, then the recorded case, all on one fresh thread
+        let prefix = Prefix::from_json(&v["history"])?;
+        return on_fresh_thread(move || {
+            if !prefix.run() {
+                eprintln!("replay: the recorded history cannot be re-created (x87 exceptions are unmasked on a fresh thread): no verdict");
+                std::process::exit(2)
+            }
+            case.alone().map_err(|s| history_text(&case, &prefix, &s))
+        })?;
+    }
     if v["interference"] == true {
         return on_fresh_thread(move || match under_interference(&case, None, None) {
             UnderInterference::FailsAlone(s) => Err(s),
@@ -1129,6 +1141,10 @@ fn run_level(level: u8, opds: &[Opd], dup_of_lower_level: &[bool], collect: bool
     let parts: Vec<(Acc, Vec<[u8; 10]>)> = (0..n)
         .into_par_iter()
         .map(|i| {
+            // Every task starts from the state of a fresh thread (fninit + the library's f80_init()), so the x87
+            // history of each of its cases is the task's own cases before it and nothing else: what the pool's
+            // worker thread ran earlier (which is up to the scheduler) cannot decide which cases fail.
+            fresh_x87_thread_init();
             let mut acc = Acc::new();
             let mut results = vec![];
             let a = opds[i];
@@ -1409,6 +1425,160 @@ fn interference_pass(sample_pairs: &[(Opd, Opd)]) -> InterferencePass {
     })
 }
 
+// ---------------------------------------------------------------------------------------------------
+// history: the same call after an earlier x87 operation on the same thread (history.rs)
+// ---------------------------------------------------------------------------------------------------
+
+/// the text of a failure that shows after a recorded history (nothing in it varies between two runs)
+fn history_text(case: &Recorded, prefix: &Prefix, s: &str) -> String {
+    format!(
+        "[history] {} made on a fresh thread AFTER an earlier x87 operation on the same thread — {} — fails: {s} [f80 operations are functions of their operands: per-thread x87 state left behind by earlier operations (sticky exception flags, condition bits of the status word) must not reach a result]",
+        case.call_text(),
+        prefix.describe()
+    )
+}
+
+impl Recorded {
+    /// the family a dependence on the thread's x87 history is reported under
+    fn history_family(&self) -> String {
+        match self {
+            Recorded::Single { op, .. } => format!("history_{}", op.name()),
+            Recorded::Sequence(c) => format!("history_{}", c.rel.family()),
+        }
+    }
+
+    fn history_replay(&self, prefix: &Prefix) -> Value {
+        let mut v = match self {
+            Recorded::Single { op, a, b, place } => case_json(0, *op, a, b, *place),
+            Recorded::Sequence(c) => c.to_json(),
+        };
+        v["family"] = json!(self.history_family());
+        v["history"] = prefix.to_json();
+        v
+    }
+
+    fn history_violation(&self, prefix: &Prefix, text: String) -> Violation {
+        Violation::new(format!("{}:{}<-{}", self.history_family(), self.call_text(), prefix.sig()), text, self.history_replay(prefix))
+    }
+
+    /// The first history of the alphabet after which the case (right on a fresh thread without history) fails on a
+    /// fresh thread: the violation, with a replay record that carries the history.
+    fn first_history_that_breaks_it(&self, alphabet: &[Prefix]) -> Option<Violation> {
+        alphabet.iter().find_map(|p| match confirm(&self.history_replay(p)) {
+            Err(text) => Some(self.history_violation(p, format!("{text} (the same call on a fresh thread without that history is right)"))),
+            Ok(()) => None,
+        })
+    }
+}
+
+#[derive(Default)]
+struct HistoryPass {
+    /// (operation, operand pair, history) calls judged against the model
+    cases: u64,
+    skipped_no_requirement: u64,
+    /// (operation, operand pair) that already fail without a history: the enumeration reports them
+    cases_not_judged_because_they_fail_without_history: u64,
+    /// (family, judged, failed), in the order of the operations
+    cases_per_family: Vec<(String, u64, u64)>,
+    findings: Vec<(String, Violation)>,
+    /// exception flags each history left in the status word (as read before the first judged call after it)
+    flags_left: Vec<(String, u16)>,
+    /// bare-flag histories whose bits were verified with fnstsw
+    flag_histories_verified: u64,
+    /// a problem of the machinery (not of the code under test)
+    broken: Option<String>,
+}
+
+/// The history pass: every operation on `pairs`, each call made on its own fresh thread after each history of the
+/// alphabet and judged against the model.  Per operation the first failing (pair, history) is reported.
+fn history_pass(pairs: &[(Opd, Opd)], alphabet: &[Prefix]) -> HistoryPass {
+    struct PerOp {
+        fam: String,
+        judged: u64,
+        skipped: u64,
+        fail_without_history: u64,
+        finding: Option<Violation>,
+        flags_left: Vec<(usize, u16)>,
+        verified: u64,
+        broken: Option<String>,
+    }
+    let per_op: Vec<PerOp> = ALL_OPS
+        .par_iter()
+        .map(|&op| {
+            let mut out = PerOp { fam: format!("history_{}", op.name()), judged: 0, skipped: 0, fail_without_history: 0, finding: None, flags_left: vec![], verified: 0, broken: None };
+            'pairs: for &(a, b0) in pairs {
+                let b = if op.binary() { b0 } else { a };
+                let case = Recorded::Single { op, a, b, place: Place::Separate };
+                match on_fresh_thread(move || check_caught(op, &a, &b, Place::Separate).0.verdict) {
+                    Ok(Verdict::Fail) => {
+                        out.fail_without_history += 1;
+                        continue;
+                    }
+                    Ok(_) => {}
+                    Err(e) => out.broken = Some(e),
+                }
+                for (pi, &prefix) in alphabet.iter().enumerate() {
+                    let r = on_fresh_thread(move || {
+                        if !prefix.run() {
+                            return None;
+                        }
+                        let sw = history::status_word();
+                        let (o, pm) = check_caught(op, &a, &b, Place::Separate);
+                        Some((sw, o.verdict, summary(op, &a, &b, Place::Separate, &o, &pm)))
+                    });
+                    let (sw, verdict, text) = match r {
+                        Ok(Some(t)) => t,
+                        Ok(None) => {
+                            out.broken = Some(format!("the history {} cannot be created: x87 exceptions are unmasked on a fresh thread", prefix.sig()));
+                            continue;
+                        }
+                        Err(e) => {
+                            out.broken = Some(e);
+                            continue;
+                        }
+                    };
+                    match prefix {
+                        Prefix::Flags(bits) if sw & bits != bits => out.broken = Some(format!("the history {} did not leave its bits in the status word (0x{sw:04x})", prefix.sig())),
+                        Prefix::Flags(_) => out.verified += 1,
+                        Prefix::Call { .. } => out.flags_left.push((pi, sw & history::ALL_FLAGS)),
+                    }
+                    match verdict {
+                        Verdict::Skip => out.skipped += 1,
+                        Verdict::Pass => out.judged += 1,
+                        Verdict::Fail => {
+                            out.judged += 1;
+                            out.finding = Some(case.history_violation(&prefix, format!("{} (the same call on a fresh thread without that history is right)", history_text(&case, &prefix, &text))));
+                            break 'pairs; // the first case of an operation is enough
+                        }
+                    }
+                }
+            }
+            out
+        })
+        .collect();
+    let mut pass = HistoryPass::default();
+    let mut left: Vec<Option<u16>> = vec![None; alphabet.len()];
+    for o in per_op {
+        pass.cases += o.judged;
+        pass.skipped_no_requirement += o.skipped;
+        pass.cases_not_judged_because_they_fail_without_history += o.fail_without_history;
+        pass.flag_histories_verified += o.verified;
+        pass.cases_per_family.push((o.fam.clone(), o.judged, o.finding.is_some() as u64));
+        if let Some(v) = o.finding {
+            pass.findings.push((o.fam, v));
+        }
+        for (pi, sw) in o.flags_left {
+            // every thread sees the same flags after the same history; should they differ, the union is shown
+            left[pi] = Some(left[pi].unwrap_or(0) | sw);
+        }
+        if pass.broken.is_none() {
+            pass.broken = o.broken;
+        }
+    }
+    pass.flags_left = alphabet.iter().zip(left).filter_map(|(p, l)| l.map(|l| (p.sig(), l))).collect();
+    pass
+}
+
 pub fn main() {
     let args = Args::parse();
     quiet_panics();
@@ -1473,6 +1643,15 @@ pub fn main() {
     let sample_pairs = [(opd_of(3.0), opd_of(10.0)), (opd_of(0.1), opd_of(1.0 / 3.0)), (opd_of(123.456), opd_of(-2.0 / 3.0)), (opd_of(1.0 + f64::EPSILON), opd_of(1e17))];
     let ipass = interference_pass(&sample_pairs);
 
+    // ---- history: every operation on a few operand pairs, each call on a fresh thread after each history (history.rs)
+    let alphabet = history::alphabet();
+    let mut history_pairs = sample_pairs.to_vec();
+    history_pairs.extend([(opd_of(3.0), opd_of(3.0)), (opd_of(f64::INFINITY), opd_of(1.0)), (opd_of(0.0), opd_of(-0.0)), (opd_of(f64::NAN), opd_of(1.0)), (opd_of(1.0), opd_of(f64::NAN))]);
+    let hpass = history_pass(&history_pairs, &alphabet);
+    if let Some(what) = &hpass.broken {
+        run.machinery_failure(&format!("history pass: {what}"));
+    }
+
     // informational only: a change here would be the doing of the code under test (and would show as arithmetic
     // violations), so it is not turned into a machinery failure
     let after: Vec<u16> = rayon::broadcast(|_| control_word());
@@ -1480,12 +1659,12 @@ pub fn main() {
 
     // ---- coverage
     let evaluations: u64 = acc.evals.iter().sum();
-    let evaluations = evaluations + sq.sequences + ipass.cases;
+    let evaluations = evaluations + sq.sequences + ipass.cases + hpass.cases;
     run.cov("evaluations", evaluations);
     run.cov("distinct_nontrivial", acc.c[C_DISTINCT]);
     run.cov(
         "rule",
-        "level 1: every unary operation (from_f64, f64->f80->f64, neg, abs, f80->f64) on every member and every binary operation (add sub mul div, the four assigning forms, min max, lt le gt ge eq partial_cmp, eq-vs-partial_cmp) on every ORDERED pair of the boundary set B of f64 bit patterns; WHERE THE OPERANDS LIVE: every case above is a call on two separate temporaries; in addition every binary operation is called (a) on every pair (x, x) of B and of the level-2 operands with BOTH OPERANDS BEING ONE OBJECT — one local variable (`x == x`, `x != x`, `x < x`, `x.partial_cmp(&x)`: the same reference twice; `x + x`, `x.min(x)`, `x -= x`: the same variable read twice) and one element of an array whose other element holds different bytes (`v[0] == v[0]` …) — and (b) on every ordered pair of B (thorough: of the level-2 operands too) with the operands in the ADJACENT ELEMENTS of one `[f80; 2]`, in both orders (`v[0] op v[1]`, `v[1] op v[0]`, `v[0] op= v[1]` with the neighbour required to stay untouched); the expected answers are the same, an f80 is plain data (signatures of such cases end in @same_object, @same_array_element, @array_elements_0_1, @array_elements_1_0); `==` is always called together with `!=`, which must give the opposite answer; level 2: the same (without from_f64 / roundtrip) on every ordered pair of a fixed subset of the level-1 arithmetic results (duplicates removed, 4/5 of them not representable in f64; taken from the model, which level 1 shows to equal the real results); every arithmetic result is additionally converted to f64; dependent sequences: for every ordered pair (a, step) of B and of every fourth level-2 operand, every assigning operator (+= -= *= /=), every distinct value lim of the model's sequence x_0 = a, x_{i+1} = x_i op step (i < 4) and every relation (lt le gt ge eq partial_cmp), ONE local variable x is compared with lim, updated in place and compared again, in five loop shapes (for with a run-time bound, written out, iterator fold, `while x R lim && n < 4`, `if x R lim { update }` in a for loop) compiled with optimisation and without any barrier between the iterations; the result codes / the number of updates and the final x are compared with the model running the same sequence (one evaluation per loop). INTERFERENCE (families interference_<operation>): f80 operations are pure functions of their operands, so what other threads compute at the same time cannot change a result; every operation on 4 fixed operand pairs of B is first called on a fresh thread that runs alone (judged against the model), then repeated on that thread until 200 000 repetitions lie in slices of 1 000 consecutive calls during which interfering threads (three; one on a machine with fewer than four processors) demonstrably completed calls of their own — every f80 operation on every ordered pair of 8 other values, in a loop — and every repetition must return exactly what the call returns alone (one evaluation per case); a failure seen by the parallel enumeration is reported as before if it reproduces on a fresh thread running alone, and is otherwise re-executed in the same way under interference; a case whose result depends on the other threads is reported with a replay record that says so (`interference: true`) and re-creates the interference. A case is counted in distinct_nontrivial when it is an arithmetic case (operation, operand pair — distinct by construction; level-2 pairs whose operands both coincide with B members are left out) whose exact result is NOT representable with a 64-bit significand, i.e. the rounding logic decided the answer.",
+        "level 1: every unary operation (from_f64, f64->f80->f64, neg, abs, f80->f64) on every member and every binary operation (add sub mul div, the four assigning forms, min max, lt le gt ge eq partial_cmp, eq-vs-partial_cmp) on every ORDERED pair of the boundary set B of f64 bit patterns; WHERE THE OPERANDS LIVE: every case above is a call on two separate temporaries; in addition every binary operation is called (a) on every pair (x, x) of B and of the level-2 operands with BOTH OPERANDS BEING ONE OBJECT — one local variable (`x == x`, `x != x`, `x < x`, `x.partial_cmp(&x)`: the same reference twice; `x + x`, `x.min(x)`, `x -= x`: the same variable read twice) and one element of an array whose other element holds different bytes (`v[0] == v[0]` …) — and (b) on every ordered pair of B (thorough: of the level-2 operands too) with the operands in the ADJACENT ELEMENTS of one `[f80; 2]`, in both orders (`v[0] op v[1]`, `v[1] op v[0]`, `v[0] op= v[1]` with the neighbour required to stay untouched); the expected answers are the same, an f80 is plain data (signatures of such cases end in @same_object, @same_array_element, @array_elements_0_1, @array_elements_1_0); `==` is always called together with `!=`, which must give the opposite answer; level 2: the same (without from_f64 / roundtrip) on every ordered pair of a fixed subset of the level-1 arithmetic results (duplicates removed, 4/5 of them not representable in f64; taken from the model, which level 1 shows to equal the real results); every arithmetic result is additionally converted to f64; dependent sequences: for every ordered pair (a, step) of B and of every fourth level-2 operand, every assigning operator (+= -= *= /=), every distinct value lim of the model's sequence x_0 = a, x_{i+1} = x_i op step (i < 4) and every relation (lt le gt ge eq partial_cmp), ONE local variable x is compared with lim, updated in place and compared again, in five loop shapes (for with a run-time bound, written out, iterator fold, `while x R lim && n < 4`, `if x R lim { update }` in a for loop) compiled with optimisation and without any barrier between the iterations; the result codes / the number of updates and the final x are compared with the model running the same sequence (one evaluation per loop). INTERFERENCE (families interference_<operation>): f80 operations are pure functions of their operands, so what other threads compute at the same time cannot change a result; every operation on 4 fixed operand pairs of B is first called on a fresh thread that runs alone (judged against the model), then repeated on that thread until 200 000 repetitions lie in slices of 1 000 consecutive calls during which interfering threads (three; one on a machine with fewer than four processors) demonstrably completed calls of their own — every f80 operation on every ordered pair of 8 other values, in a loop — and every repetition must return exactly what the call returns alone (one evaluation per case); a failure seen by the parallel enumeration is reported as before if it reproduces on a fresh thread running alone, and is otherwise re-executed in the same way under interference; a case whose result depends on the other threads is reported with a replay record that says so (`interference: true`) and re-creates the interference. HISTORY (families history_<operation>): the x87 keeps per-thread state that outlives an instruction — six sticky exception flags (invalid, denormal operand, divide by zero, overflow, underflow, inexact; cleared only by fnclex / fninit) and the condition bits of the last compare — and none of it may reach a result; every operation on 9 operand pairs of B (the 4 above, an equal pair, (inf, 1), (+0, -0), (NaN, 1), (1, NaN)) is called, each call on its OWN fresh thread (fninit + f80_init()), after each of 20 histories: 12 calls of the library that raise each exception class (inf - inf, 0 * inf, 0 / 0, NaN < 1, 1 / 0, 1 / 3, overflow and underflow of a product, a denormal operand, the f64 conversions of a subnormal / of too large / too small values; which flags each leaves behind is read with fnstsw and reported, not demanded) and 8 bare status-word settings made by the engine's own fnstenv / fldenv (each flag alone, all six, the four condition bits; verified with fnstsw), and judged against the model (one evaluation per call); every task of the parallel enumeration (one outer operand index) also starts from fninit + f80_init(), so the history of each of its cases is the task's own earlier cases and nothing the scheduler decides; a failure the enumeration saw that is right on a fresh thread is re-executed on a fresh thread after each history and reported with the first one that breaks it; a replay record of such a case carries the history (`history`) and replays it on a fresh thread before the case. A case is counted in distinct_nontrivial when it is an arithmetic case (operation, operand pair — distinct by construction; level-2 pairs whose operands both coincide with B members are left out) whose exact result is NOT representable with a 64-bit significand, i.e. the rounding logic decided the answer.",
     );
     run.cov("exhaustive", true);
     run.cov("boundary_set_size", b.len() as u64);
@@ -1517,6 +1696,9 @@ pub fn main() {
     for (name, checked) in &ipass.cases_per_family {
         // the first case of an operation whose result depends on the other threads ends its part of the sample
         let failed = ipass.findings.iter().filter(|(f, _)| f == name).count();
+        fam.insert(name.clone(), json!({"checked": checked, "failed": failed, "skipped_no_requirement": 0}));
+    }
+    for (name, checked, failed) in &hpass.cases_per_family {
         fam.insert(name.clone(), json!({"checked": checked, "failed": failed, "skipped_no_requirement": 0}));
     }
     run.cov("families", Value::Object(fam));
@@ -1626,13 +1808,25 @@ pub fn main() {
         seen.push((Violation::new(r.case.signature(), summary, r.case.to_json()), Recorded::Sequence(r.case)));
     }
     let mut interference_findings: Vec<(String, Violation)> = ipass.findings.clone();
-    let (mut seen_not_alone, mut seen_explained) = (0u64, 0u64);
+    let mut history_findings: Vec<(String, Violation)> = hpass.findings.clone();
+    let (mut seen_not_alone, mut seen_explained, mut seen_explained_by_history) = (0u64, 0u64, 0u64);
     for (v, case) in seen {
         if confirm(&v.replay).is_err() {
             run.violation(v); // reproduces on a thread that runs alone
             continue;
         }
         seen_not_alone += 1;
+        // right on a fresh thread: is it a history of the alphabet that breaks it?  (Every enumeration task starts
+        // from the fresh-thread state, so what made it fail there is the x87 state its own earlier cases left.)
+        if history_findings.iter().any(|(f, _)| *f == case.history_family()) {
+            seen_explained_by_history += 1;
+            continue;
+        }
+        if let Some(hv) = case.first_history_that_breaks_it(&alphabet) {
+            seen_explained_by_history += 1;
+            history_findings.push((case.history_family(), hv));
+            continue;
+        }
         let fam = case.interference_family();
         if interference_findings.iter().any(|(f, _)| case.explained_by().contains(f)) {
             seen_explained += 1;
@@ -1648,6 +1842,28 @@ pub fn main() {
             _ => run.violation(Violation::new(v.signature, format!("{} [seen during the parallel enumeration; it did not show again, neither on a thread running alone nor under interference]", v.summary), v.replay)),
         }
     }
+    for (_, v) in &history_findings {
+        let mut v = v.clone();
+        if seen_explained_by_history > 0 {
+            v.summary = format!("{} [{seen_explained_by_history} failure(s) seen by the enumeration did not reproduce on a fresh thread without history and do after a history of the alphabet]", v.summary);
+        }
+        run.violation(v);
+    }
+    run.cov(
+        "history_pass",
+        json!({
+            "histories_(earlier_x87_operation_on_the_same_thread)": alphabet.iter().map(|p| p.sig()).collect::<Vec<_>>(),
+            "operand_pairs": history_pairs.len(),
+            "cases_judged_(operation,_operand_pair,_history),_each_on_its_own_fresh_thread": hpass.cases,
+            "cases_skipped_no_requirement": hpass.skipped_no_requirement,
+            "cases_not_judged_because_they_fail_without_history": hpass.cases_not_judged_because_they_fail_without_history,
+            "exception_flags_in_the_status_word_after_each_library_call_history_(IE=1,DE=2,ZE=4,OE=8,UE=16,PE=32)": hpass.flags_left.iter().map(|(p, f)| (p.clone(), json!(format!("0x{f:02x}")))).collect::<serde_json::Map<_, _>>(),
+            "library_call_histories_that_left_an_exception_flag_set": hpass.flags_left.iter().filter(|(_, f)| *f != 0).count(),
+            "bare_flag_histories_verified_with_fnstsw": hpass.flag_histories_verified,
+            "operations_whose_result_depends_on_the_history": history_findings.len(),
+            "failures_of_the_enumeration_explained_by_a_history": seen_explained_by_history,
+        }),
+    );
     for (_, v) in &interference_findings {
         let mut v = v.clone();
         if seen_not_alone > 0 {
@@ -1672,9 +1888,14 @@ pub fn main() {
     if !run.has_violations() && (ipass.cases != (ALL_OPS.len() * sample_pairs.len()) as u64 || ipass.repetitions < ipass.cases * interfere::REPS) {
         run.machinery_failure("interference pass: not every operation of the sample was repeated under interference");
     }
+    let history_calls = (ALL_OPS.len() * history_pairs.len() * alphabet.len()) as u64;
+    if !run.has_violations() && (hpass.cases + hpass.skipped_no_requirement != history_calls || hpass.flag_histories_verified != (ALL_OPS.len() * history_pairs.len() * alphabet.iter().filter(|p| matches!(p, Prefix::Flags(_))).count()) as u64) {
+        run.machinery_failure("history pass: not every operation of the sample was called after every history, or a bare-flag history was not verified");
+    }
     run.assume("the ten bytes at offset 0 of an f80 value are its x87 double-extended encoding (read with transmute_copy)");
     run.assume("second-level operands are the first-level results in canonical x87 encoding as computed by the model; level 1 checks that the real code produces exactly these values (counter arith_results_passing_but_not_canonical_bytes = 0 means: the very same bytes), so the subset and the level-2 signatures do not move when the code under test is changed");
     run.assume("interference pass: whether two threads really execute at the same instant is up to the machine; the pass only counts repetitions made while an interfering thread demonstrably made progress (no clock involved) and gives no verdict (exit 2) if that never happens; state shared between threads is detected when a collision changes the returned value within 200 000 such repetitions — a window so narrow that this many repetitions practically never hit it is not detected");
+    run.assume("history pass: the per-thread x87 state that is varied is the status word (sticky exception flags, condition bits) as left by ONE earlier operation; the control word (precision, rounding, exception masks) is the environment the property presupposes and is not varied; a dependence on longer histories (e.g. leaked register-stack slots) shows only through the repetitions of the plain re-execution and the accumulated history inside an enumeration task");
     run.assume("operand placement: overlapping operands cannot be expressed in safe Rust for a 16-byte aligned 16-byte type; same object and adjacent array elements are what is covered; by-value operations (`x + x`, `x.min(x)`) copy their operands, whether the callee then sees one address or two is the compiler's choice");
     run.assume("dependent sequences: the loops are compiled into the engine with its release profile (opt-level 3); a comparison or operator that promises the compiler too much (inline assembly marked pure / nomem, missing clobbers) is caught only if the optimiser of the installed tool chain exploits it in one of the five loop shapes — the family shows that these shapes compute what the model computes, it does not prove that no other shape is miscompiled");
     run.finish(&confirm)
